@@ -1,0 +1,13 @@
+//go:build verif
+
+// Verification hooks (build tag verif) for C05: exported wrapper around the replica-group master election used
+// when the node owning the master partition fails. No behaviour of its own.
+package meta
+
+import (
+	meta2 "github.com/openGemini/openGemini/lib/util/lifted/influx/meta"
+)
+
+func VerifElectRgMaster(rg *meta2.ReplicaGroup, ptInfo meta2.DBPtInfos, db string) (uint32, []meta2.Peer, bool) {
+	return electRgMaster(rg, ptInfo, db)
+}
